@@ -84,7 +84,9 @@ class Path:
         s.set("timeout", self.engine.feas_timeout_ms)
         s.set("rlimit", RLIMIT_PER_MS * (self.engine.feas_timeout_ms))
         from . import specfun
-        terms, axioms = specfun.defuel(list(self.pc) + [c], 2, feasibility=True)
+        if not hasattr(self, "_dstate"):
+            self._dstate = {}
+        terms, axioms = specfun.defuel(list(self.pc) + [c], 2, feasibility=True, state=self._dstate)
         s.add(*terms)
         s.add(*axioms)
         t0 = time.time()
@@ -241,7 +243,7 @@ def _discharge1(ob, timeout_ms=10000):
     r = z3.unknown
     # z3's sequence solver is unstable on identical input: an `unknown` is retried with other random seeds
     from . import specfun
-    if set(specfun._DEFS) - specfun._FEAS_ONLY:
+    if set(specfun._DEFS) - specfun._FEAS_ONLY or specfun.FORCE_FUEL[0]:
         # spec functions by bounded unfolding (pyvc/specfun.py): only `unsat` is conclusive
         for fuel in (1, 2):
             terms, axioms = specfun.defuel(list(ob.pc) + [z3.Not(ob.goal)], fuel, feasibility=True)
